@@ -192,13 +192,17 @@ def gen_lineup(rng: random.Random, n=None, kinds=None, max_bs=4, rl=False, featu
         bs = rng.randint(1, max_bs)
         lineup.append(gen_sampler_spec(rng, k, bs))
     if rl:
-        # the bootstrap sampler must be able to feed every history-driven sampler that may follow
+        # the bootstrap sampler must be able to feed every history-driven sampler that may follow; with several Halton
+        # samplers in the line-up the scheduler may bootstrap with any of them, so all of them must be large enough
         need = max([s["batch_size"] for s in lineup if s["cls"] == "bestbatch"] + [1])
         if not any(s["cls"] == "halton" for s in lineup) and rng.random() < 0.5 and need == 1:
             pass      # let the scheduler add its own Halton(batch_size=1)
         else:
             pos = rng.randrange(len(lineup) + 1)
             lineup.insert(pos, gen_sampler_spec(rng, "halton", max(need, rng.randint(1, max_bs))))
+        for sp in lineup:
+            if sp["cls"] == "halton":
+                sp["batch_size"] = max(sp["batch_size"], need)
     else:
         need = max([s["batch_size"] for s in lineup[1:] if s["cls"] == "bestbatch"] + [1])
         lineup[0]["batch_size"] = max(lineup[0]["batch_size"], need)
@@ -802,7 +806,29 @@ def hist_equal(a: dict, b: dict):
     return diffs
 
 
+def lineup_ok(cfg) -> bool:
+    """generator invariant: whatever the scheduler designates can run on a history that holds the first batch"""
+    lu = cfg["lineup"]
+    if not lu:
+        return False
+    if cfg["scheduler"]["kind"] == "rl":
+        need = max([s["batch_size"] for s in lu if s["cls"] == "bestbatch"] + [1])
+        hs = [s["batch_size"] for s in lu if s["cls"] == "halton"]
+        return all(h >= need for h in hs) if hs else need == 1
+    need = max([s["batch_size"] for s in lu[1:] if s["cls"] == "bestbatch"] + [1])
+    return lu[0]["cls"] in HISTORY_FREE and lu[0]["batch_size"] >= need
+
+
 def shrink_scn(scn: dict):
+    """shrink candidates that keep the generator's line-up invariant (a scenario that merely violates a sampler's
+    precondition is not a simpler instance of the same failure)"""
+    ok0 = lineup_ok(scn["config"])
+    for c in _shrink_scn(scn):
+        if not ok0 or lineup_ok(c["config"]):
+            yield c
+
+
+def _shrink_scn(scn: dict):
     """Generic shrinking lattice for calsim scenarios (DESIGN 3.7): fewer ops/batches, fewer samplers,
     simpler loss/model/environment, fewer dimensions."""
     import copy
